@@ -46,6 +46,8 @@ def plan(tier, seed):
         units.append({'kind': 'cms', 'weight': 4, 'flips': 6 if tier == 'quick' else 24})
         units.append({'kind': 'sm9', 'weight': 4})
         units.append({'kind': 'cbc-padding', 'count': 2, 'weight': 3})
+        if rep % 6 == 0:
+            units.append({'kind': 'xmss', 'weight': 8})
         units.append({'kind': 'record', 'weight': 2})
     return units
 
@@ -1134,6 +1136,91 @@ def u_cbc_padding(ctx, u):
     ctx.sample({'kind': 'cbc-padding', 'count': u['count']})
 
 
+def u_xmss(ctx, u):
+    """SM3-XMSS (hash-based signatures, built by default): key generation, signing at the first and the last one-time index,
+    verification, and - in a forked child - one more signature after the one-time keys are used up (index = 2^h).  The
+    unmodified library has no range check there and reads past its tree, which the sanitizer of the child reports; that is
+    outside the 20 properties (the index is the caller's to manage), so the child's death is a statistic and only what it
+    wrote to stdout / stderr before is judged: whatever happens, it must not be the key's secret seed or PRF key."""
+    lib, L, rng = ctx.lib, ctx.L, ctx.rng
+    if not lib.has('sm3_xmss_key_generate') or 'sizeof_SM3_XMSS_KEY' not in L:
+        ctx.stat('info_xmss_not_built')
+        ctx.ok()
+        return
+    key = ctx.buf(L['sizeof_SM3_XMSS_KEY'], fill=0)
+    cap = Capture(ctx)
+    with cap:
+        ctx.begin(['xmss', 'keygen'])
+        r = lib.sm3_xmss_key_generate(key, L['XMSS_SM3_10'])
+        ctx.shim.vf_fflush_all()
+    if not ctx.check(r == 1, 'harness:xmss-keygen-failed', ret=r):
+        return
+    o_s, o_p, o_i = L['off_SM3_XMSS_KEY_secret'], L['off_SM3_XMSS_KEY_prf_key'], L['off_SM3_XMSS_KEY_index']
+    secrets = [('xmss_secret', key.raw(32, o_s)), ('xmss_prf_key', key.raw(32, o_p))]
+    judge(ctx, cap, secrets, 'xmss:keygen', 'success')
+    msg = ctx.inbuf(b'xmss message ' + rng.randbytes(20))
+
+    def sign_at(index):
+        key.write(index.to_bytes(4, 'little'), o_i)
+        sc = ctx.buf(L['sizeof_SM3_XMSS_SIGN_CTX'], fill=0)
+        sig = ctx.buf(L['sizeof_SM3_XMSS_SIGNATURE'] + 64, fill=0)
+        sl = ctypes.c_size_t(0)
+        r = lib.sm3_xmss_sign_init(sc, key)
+        if r == 1:
+            r = lib.sm3_xmss_sign_update(sc, msg, msg.n)
+        if r == 1:
+            r = lib.sm3_xmss_sign_finish(sc, key, sig, ctypes.byref(sl))
+        out = sig.raw(sl.value) if r == 1 and sl.value <= sig.n else None
+        sc.free()
+        sig.free()
+        return r, out
+    for index in (0, 1, 1022, 1023):
+        cap = Capture(ctx)
+        with cap:
+            ctx.begin(['xmss', 'sign', index])
+            r, sg = sign_at(index)
+            ok = None
+            if r == 1 and sg:
+                vc = ctx.buf(L['sizeof_SM3_XMSS_SIGN_CTX'], fill=0)
+                sb = ctx.inbuf(sg)
+                ok = lib.sm3_xmss_verify_init(vc, key, sb, len(sg))
+                if ok == 1:
+                    ok = lib.sm3_xmss_verify_update(vc, msg, msg.n)
+                if ok == 1:
+                    ok = lib.sm3_xmss_verify_finish(vc, key, sb, len(sg))
+                vc.free()
+                sb.free()
+            ctx.shim.vf_fflush_all()
+        ctx.check(r == 1 and ok == 1, 'harness:xmss-sign-verify-failed', index=index, sign=r, verify=ok)
+        judge(ctx, cap, secrets, 'xmss:sign+verify', 'index-%d' % index)
+    # the exhausted key, in a child
+    outp, errp = os.path.join(ctx.tmp, 'xmss.out'), os.path.join(ctx.tmp, 'xmss.err')
+    pid = os.fork()
+    if pid == 0:
+        try:
+            fo = os.open(outp, os.O_WRONLY | os.O_CREAT | os.O_TRUNC, 0o600)
+            fe = os.open(errp, os.O_WRONLY | os.O_CREAT | os.O_TRUNC, 0o600)
+            os.dup2(fo, 1)
+            os.dup2(fe, 2)
+            sign_at(1024)
+            ctx.shim.vf_fflush_all()
+        finally:
+            os._exit(0)
+    _, status = os.waitpid(pid, 0)
+    ctx.stat('xmss_exhausted_key_child_%s' % ('killed' if os.WIFSIGNALED(status) or os.WEXITSTATUS(status) else 'returned'))
+
+    class _C(object):
+        pass
+    c2 = _C()
+    c2.stdout, c2.stderr = open(outp, 'rb').read(), open(errp, 'rb').read()
+    judge(ctx, c2, secrets, 'xmss:sign', 'one-time-keys-used-up')
+    key.write((0).to_bytes(4, 'little'), o_i)
+    lib.sm3_xmss_key_cleanup(key)
+    for b in (key, msg):
+        b.free()
+    ctx.sample({'kind': 'xmss'})
+
+
 def u_sm9(ctx, u):
     rng, lib, L = ctx.rng, ctx.lib, ctx.L
     cap = Capture(ctx)
@@ -1206,5 +1293,5 @@ def u_record(ctx, u):
 
 
 def run_unit(ctx, u):
-    {'handshake': u_handshake, 'handshake-fail': u_handshake_fail, 'recv-fail': u_recv_fail, 'ctx-setup': u_ctx_setup, 'peer-secrets': u_peer_secrets, 'sm2': u_sm2, 'pkcs8': u_pkcs8, 'import': u_import, 'cms': u_cms, 'sm9': u_sm9, 'cbc-padding': u_cbc_padding,
+    {'handshake': u_handshake, 'handshake-fail': u_handshake_fail, 'recv-fail': u_recv_fail, 'ctx-setup': u_ctx_setup, 'peer-secrets': u_peer_secrets, 'sm2': u_sm2, 'pkcs8': u_pkcs8, 'import': u_import, 'cms': u_cms, 'sm9': u_sm9, 'cbc-padding': u_cbc_padding, 'xmss': u_xmss,
      'record': u_record}[u['kind']](ctx, u)
